@@ -245,8 +245,17 @@ class AsyncIOClient(ABC):
             if self._state != State.CLOSED:
                 self.logger.error(f"Connection lost while reading. Error: {ex}. Reconnecting...", exc_info=True)
                 await self._update_state(State.DISCONNECTED)
-                asyncio.create_task(self.connect())
+                asyncio.create_task(self._reconnect())
         self.logger.info("Received loop terminated")
+
+    async def _reconnect(self):
+        """Reconnect after a fault on an established link.
+
+        A gateway that accepts connections and drops them right away must not be reconnected to in a
+        tight loop: the first attempt waits as long as the first retry of connect() does.
+        """
+        await asyncio.sleep(0.5)
+        await self.connect()
         
     async def send(self, nmea2000Message: NMEA2000Message):
         """Send a NMEA2000 message to the gateway.
@@ -278,7 +287,7 @@ class AsyncIOClient(ABC):
             if self._state != State.CLOSED and (writer is None or writer is self.writer):
                 self.logger.error(f"Connection lost while sending. Error {ex}. Reconnecting...", exc_info=True)
                 await self._update_state(State.DISCONNECTED)
-                asyncio.create_task(self.connect())
+                asyncio.create_task(self._reconnect())
 
     async def close(self):
         """Close the connection and terminate the client.
